@@ -11,6 +11,7 @@ that the cost bound is not vacuous). The C14 contracts are attached to extract_p
 
 import collections
 import os
+from vf.util import vary_name  # noqa: E402
 
 from vf import monitor as M
 from vf.cli import run_cli
@@ -67,7 +68,7 @@ def run_case(ctx, rng, index, casedir):
     elif rng.random() < 0.5:
         rgfa.stretch(g, rng, rng.choice([5, 20, 60]) if ctx.tier == "quick" else rng.choice([5, 20, 60, 200]))
         sit["stretched_graphs"] += 1
-    gpath = g.write(os.path.join(casedir, "g.gfa" + (".gz" if rng.random() < 0.2 else "")), rng=rng, shuffle=rng.random() < 0.4)
+    gpath = g.write(os.path.join(casedir, vary_name(rng, "g.gfa") + (".gz" if rng.random() < 0.2 else "")), rng=rng, shuffle=rng.random() < 0.4)
     M.CTX["pairs"], M.CTX["seqs"] = g.step_pairs(), g.seqs()
     recs = []
     if big_case:
@@ -130,7 +131,7 @@ def run_case(ctx, rng, index, casedir):
             r.owner = owner
     lines = [r.line for r in recs]
     mode = rng.choice(["plain", "plain", "bgzf"])
-    gaf = os.path.join(casedir, "in.gaf" + ("" if mode == "plain" else ".gz"))
+    gaf = os.path.join(casedir, vary_name(rng, "in.gaf") + ("" if mode == "plain" else ".gz"))
     ggaf.write_gaf(gaf, lines, mode=mode, rng=rng, layout="tiny")
     fa = greads.write_fasta(os.path.join(casedir, "reads.fa"), [(r.name, r.read) for r in recs if r.read is not None], width=rng.choice([60, 80, 1000]))
     cores = rng.choice([1, 1, 2, 3])
